@@ -13,6 +13,7 @@ import (
 	"os"
 	"runtime"
 	"sort"
+	"strings"
 	"sync"
 	"time"
 
@@ -211,6 +212,10 @@ type trieOutcome struct {
 	obsIdx []int
 	llines []string
 	lobs   []int
+	blines []string
+	bobs   []int
+	zlines []string
+	zobs   []int
 }
 
 func checkTrieCases(f lib.Flags, res *lib.Result, drv *lib.Driver, cases []*TrieCase, family string) {
@@ -251,6 +256,10 @@ func checkTrieCases(f lib.Flags, res *lib.Result, drv *lib.Driver, cases []*Trie
 			o.llines = append(o.llines, line)
 		}
 		all = append(all, o.llines...)
+		o.blines, o.bobs = lazyModelLines(o.c, i%1000)
+		all = append(all, o.blines...)
+		o.zlines, o.zobs = restartModelLines(o.c, i%1000)
+		all = append(all, o.zlines...)
 	}
 	var answers []string
 	if drv != nil {
@@ -265,7 +274,7 @@ func checkTrieCases(f lib.Flags, res *lib.Result, drv *lib.Driver, cases []*Trie
 	off := 0
 	for _, o := range outs {
 		evalTrieOutcome(res, o, answers, off, family)
-		off += len(o.lines) + len(o.llines)
+		off += len(o.lines) + len(o.llines) + len(o.blines) + len(o.zlines)
 	}
 }
 
@@ -351,6 +360,45 @@ func evalTrieOutcome(res *lib.Result, o *trieOutcome, answers []string, off int,
 		if got := feltHex(&v); got != impl {
 			res.Mismatch(lib.Mismatch{Sig: "trie2-root", Input: c, Model: got + " = " + clip(ans), Impl: impl})
 			return
+		}
+	}
+	// trie2 model with node database: roots, and the node set of every Commit
+	boff := off + len(o.lines) + len(o.llines)
+	ci := 0
+	for j, idx := range o.bobs {
+		ans := answers[boff+idx]
+		fields := strings.Fields(ans)
+		res.Compared(1)
+		if len(fields) == 0 {
+			res.Mismatch(lib.Mismatch{Sig: "trie2-store-model-answer", Input: c, Model: clip(ans)})
+			break
+		}
+		v, err := evalTerm(fields[0])
+		if impl := at(o.t2.Roots, j); err != nil || feltHex(&v) != impl {
+			res.Mismatch(lib.Mismatch{Sig: "trie2-store-model-root", Input: c, Model: clip(ans), Impl: impl})
+			break
+		}
+		if len(fields) > 1 { // a commit
+			if ci < len(o.t2.Sets) {
+				res.Compared(1)
+				res.HitN("commit:nodes-written", len(fields)-1)
+				if d := compareSet(fields[1:], o.t2.Sets[ci]); d != "" {
+					res.Mismatch(lib.Mismatch{Sig: "trie2-committed-node-set", Input: c, Model: d})
+					break
+				}
+			}
+			ci++
+		}
+	}
+	// restart model (unresolved nodes carry their subtree)
+	zoff := boff + len(o.blines)
+	for j, idx := range o.zobs {
+		ans := answers[zoff+idx]
+		res.Compared(1)
+		v, err := evalTerm(ans)
+		if impl := at(o.t2.Roots, j); err != nil || feltHex(&v) != impl {
+			res.Mismatch(lib.Mismatch{Sig: "trie2-restart-model-root", Input: c, Model: clip(ans), Impl: impl})
+			break
 		}
 	}
 	// same for the legacy trie model
